@@ -72,6 +72,13 @@ def parseValidator (s : String) : Option (Nat → Val → Except Exc Val) :=
     | none => none
   | _ => none
 
+/-- The validators that also run while an object is restored / cloned: the REAL traits (`int`, `range`); the
+custom TraitTypes of the harness accept stored values then. -/
+def parseRealValidator (s : String) : Option (Nat → Val → Except Exc Val) :=
+  match s.splitOn ":" with
+  | ["range", _, _] => parseValidator s
+  | _ => (parseValidator s).map fun _ => (fun _ x => .ok x)
+
 /-- Python's `==` on the value pool of harness/props/deleglib.py (`EQCLASS`): tokens from 100 on are fixed
 objects — 100 ↦ 1.0, 101 ↦ True, 102/103 two equal tuples, 104 ↦ 3.0, 105 ↦ 4.0, 106/107 two equal lists. -/
 def eqClass (x : Val) : Val :=
@@ -87,6 +94,7 @@ copy (`Pool.restore`). -/
 inductive DOp where
   | op (o : Op)
   | copy (which : Option ObjId)
+  | clone                             -- `cp A d`: copy.deepcopy of the whole pool
 
 def parseOp (s : String) : Option DOp :=
   match words s with
@@ -97,6 +105,7 @@ def parseOp (s : String) : Option DOp :=
     let t ← if t = "N" then some none else t.toNat?.map some
     pure (.op (.swap (← o.toNat?) t))
   | ["cp", "A", "p"] => some (.copy none)
+  | ["cp", "A", "d"] => some .clone
   | ["cp", o, "c"] => do pure (.copy (some (← o.toNat?)))
   | _ => none
 
@@ -106,6 +115,7 @@ def opObjs : DOp → List Nat
   | .op (.read o _) => [o]
   | .op (.swap o t) => o :: t.toList
   | .copy w => w.toList
+  | .clone => []
 
 /-- Order of events in the canonical output: (object, name, old, new). -/
 def evLe (a b : Event) : Bool :=
@@ -144,20 +154,23 @@ def showOut (s : StepOut) : String :=
   s!"{res} E[{evs}] X{s.hookExc} S[{showSnapshot s.pool}] F[{showForwarders s.pool}]"
 
 /-- The history with the cycle guard: an operation that would close a cycle is skipped. -/
-def runGuarded (E : Env) : Nat → Pool → List DOp → List String
+def runGuarded (E R : Env) : Nat → Pool → List DOp → List String
   | _, _, [] => []
   | k, p, dop :: ops =>
     match dop with
     | .copy w =>
-      if (match w with | some o => isDelegateOfOther p o | none => false) then "skip" :: runGuarded E (k + 1) p ops
-      else if p.restoreFails w then showOut (fail p .traitError) :: runGuarded E (k + 1) p ops
+      if (match w with | some o => isDelegateOfOther p o | none => false) then "skip" :: runGuarded E R (k + 1) p ops
+      else if p.restoreFails R w then showOut (fail p .traitError) :: runGuarded E R (k + 1) p ops
       else
         let p' := p.restore w
-        showOut { pool := p', res := .ok none } :: runGuarded E (k + 1) p' ops
+        showOut { pool := p', res := .ok none } :: runGuarded E R (k + 1) p' ops
+    | .clone =>
+      let p' := p.cloneAll R
+      showOut { pool := p', res := .ok none } :: runGuarded E R (k + 1) p' ops
     | .op (.swap o t) =>
-      if wouldCycle p o t then "skip" :: runGuarded E (k + 1) p ops
-      else let s := step E k p (.swap o t); showOut s :: runGuarded E (k + 1) s.pool ops
-    | .op op => let s := step E k p op; showOut s :: runGuarded E (k + 1) s.pool ops
+      if wouldCycle p o t then "skip" :: runGuarded E R (k + 1) p ops
+      else let s := step E k p (.swap o t); showOut s :: runGuarded E R (k + 1) s.pool ops
+    | .op op => let s := step E k p op; showOut s :: runGuarded E R (k + 1) s.pool ops
 
 def handle (line : String) : String :=
   match (clean line).splitOn "|" with
@@ -166,15 +179,16 @@ def handle (line : String) : String :=
     match parseClasses classes,
           (fields objects ",").mapM (·.toNat?),
           (fields validators ",").mapM parseValidator,
+          (fields validators ",").mapM parseRealValidator,
           (fields ops ";").mapM parseOp with
-    | some cs, some objs, some vs, some ops =>
+    | some cs, some objs, some vs, some rvs, some ops =>
       match objs.mapM (fun i => cs[i]?) with
       | none => "bad-case"
       | some ocs =>
         let p := mkPool ocs
         if ops.any (fun op => (opObjs op).any (· ≥ p.size)) then "bad-case"
-        else " ; ".intercalate (runGuarded (mkEnv vs) 0 p ops)
-    | _, _, _, _ => "bad-case"
+        else " ; ".intercalate (runGuarded (mkEnv vs) (mkEnv rvs) 0 p ops)
+    | _, _, _, _, _ => "bad-case"
   | _ => "bad-case"
 
 end TraitsVerif.Driver.Deleg
